@@ -133,6 +133,42 @@ type runPlan struct {
 	input string
 }
 
+// May the runs of c use the empty map values ("Mz", "NMz")?  Not with a node that has an input / output key (the
+// key is not found in them) and not where two values can meet at one node (two empty maps merge successfully,
+// the model does not predict what happens behind a merge): every node, END included, has at most one incoming
+// data connection (edge or branch end).
+func mapZOK(c *Case) bool {
+	indeg := map[int]int{}
+	for _, o := range c.Ops {
+		switch o.K {
+		case "node":
+			if o.Kind >= 5 {
+				return false
+			}
+		case "edge":
+			indeg[o.E]++
+		case "branch":
+			for _, e := range o.Ends {
+				indeg[e]++
+			}
+		}
+	}
+	for _, n := range indeg {
+		if n > 1 {
+			return false
+		}
+	}
+	return true
+}
+
+// values a producer of static type t can emit in the runs of c
+func optionsForCase(c *Case, t string) []string {
+	if mapZOK(c) {
+		return optionsFor(t)
+	}
+	return optionsNoMapZ(t)
+}
+
 // producers: START (if the graph input is an interface) and every lambda with an interface output
 func planRuns(c *Case) []runPlan {
 	type prod struct {
@@ -140,12 +176,12 @@ func planRuns(c *Case) []runPlan {
 		opts []string
 	}
 	var ps []prod
-	ps = append(ps, prod{0, optionsFor(c.In)})
+	ps = append(ps, prod{0, optionsForCase(c, c.In)})
 	seen := map[int]bool{}
 	for _, o := range c.Ops {
 		if o.K == "node" && !seen[o.Key] {
 			seen[o.Key] = true
-			ps = append(ps, prod{o.Key, optionsFor(o.Out)})
+			ps = append(ps, prod{o.Key, optionsForCase(c, o.Out)})
 		}
 	}
 	def := map[int]string{}
@@ -527,7 +563,7 @@ func build(c *Case, plans []runPlan, extra bool) (bo BuildObs) {
 // type admits more than one dynamic value, a second chunk of another dynamic type than the planned one
 func secondChunks(c *Case, pl runPlan) map[int]string {
 	m := map[int]string{}
-	if opts := optionsFor(c.In); len(opts) >= 2 {
+	if opts := optionsForCase(c, c.In); len(opts) >= 2 {
 		for i, v := range opts {
 			if v == pl.input {
 				m[0] = opts[(i+1)%len(opts)]
@@ -540,7 +576,7 @@ func secondChunks(c *Case, pl runPlan) map[int]string {
 			continue
 		}
 		seen[o.Key] = true
-		opts := optionsFor(o.Out)
+		opts := optionsForCase(c, o.Out)
 		if len(opts) < 2 {
 			continue
 		}
